@@ -241,6 +241,18 @@ def expandUserdirs (expander : Bytes → Bytes) (basePath : Bytes) (path : Bytes
     if basePath.isPrefixOf expanded then expanded.drop basePath.length else path
   else path
 
+/-- PROPOSED FIX of `_expand_userdirs` (not in the tree; the harness probes which variant the
+tree has): the URL-escaped path is unescaped before it is expanded, and the part of the
+expanded OS path below the base path is escaped again -/
+def expandUserdirsFx (expander : Bytes → Bytes) (basePath : Bytes) (path : Bytes) : Bytes :=
+  if path.head? = some TILDE then
+    match unescape path with
+    | .error _ => path
+    | .ok fs =>
+      let expanded := withSlash (expander fs)
+      if basePath.isPrefixOf expanded then escape (expanded.drop basePath.length) else path
+  else path
+
 def rstripSl (p : Bytes) : Bytes := (p.reverse.dropWhile (· = SL)).reverse
 
 def lookupHome (tbl : List (Bytes × Bytes)) (name : Bytes) : Option Bytes :=
